@@ -79,6 +79,14 @@ func (r *replica) updateLatestOffset(offset int64) (updated bool) {
 	return
 }
 
+// setLatestOffset sets the replica's latest offset to the given value
+// regardless of the current one.
+func (r *replica) setLatestOffset(offset int64) {
+	r.mu.Lock()
+	r.offset = offset
+	r.mu.Unlock()
+}
+
 // getLatestOffset returns the replica's latest log offset.
 func (r *replica) getLatestOffset() int64 {
 	r.mu.RLock()
@@ -858,7 +866,15 @@ func (p *partition) becomeLeader(epoch uint64) error {
 		// Also update the protobuf ISR list for persistence.
 		p.Isr = append(p.Isr, p.srv.config.Clustering.ServerID)
 	}
-	rep.updateLatestOffset(p.log.NewestOffset())
+	// Offsets recorded while this server led an earlier epoch say nothing about
+	// the replicas' logs now (they may have been truncated under another
+	// leader since, as may this server's own): start from what is known.
+	for id, r := range p.isr {
+		if id != p.srv.config.Clustering.ServerID {
+			r.setLatestOffset(-1)
+		}
+	}
+	rep.setLatestOffset(p.log.NewestOffset())
 
 	// Start message processing loop.
 	recvChan := make(chan *nats.Msg, recvChannelSize)
